@@ -774,6 +774,8 @@ func (e *Env) evalCall(n *spec.Call) (SV, error) {
 			return SV{T: Gt(PObj(v.T), e.old.Alloc)}, nil
 		case SSlice:
 			return SV{T: Gt(SObj(v.T), e.old.Alloc)}, nil
+		case SIface:
+			return SV{T: Gt(PObj(IPl(v.T)), e.old.Alloc)}, nil
 		}
 		return SV{}, fmt.Errorf("fresh() of %s", v.T.Sort)
 	case "str":
